@@ -50,14 +50,15 @@ SnapsOf(ns) ==
      LET r == ns[Idx(ns, id, k)] IN [topic |-> r.topic, proj |-> r.proj]]
 
 Empty == [now |-> 0, topics |-> <<>>, subs |-> <<>>, msgs |-> <<>>, del |-> <<>>,
-          snaps |-> <<>>, acked |-> {}, gsnap |-> <<>>]
+          snaps |-> <<>>, acked |-> {}, gsnap |-> <<>>, gord |-> <<>>]
 
 Adopt(pre, e) ==
   LET p == e.post
       C2 == [topics |-> TopicsOf(p.topics), subs |-> SubsOf(p.subs), msgs |-> MsgsOf(p.msgs),
              del |-> DelOf(p.del), snaps |-> SnapsOf(p.snaps)]
   IN [now |-> e.t1, topics |-> C2.topics, subs |-> C2.subs, msgs |-> C2.msgs, del |-> C2.del,
-      snaps |-> C2.snaps, acked |-> GhostAcked(pre, e, C2), gsnap |-> GhostSnap(pre, e, C2)]
+      snaps |-> C2.snaps, acked |-> GhostAcked(pre, e, C2), gsnap |-> GhostSnap(pre, e, C2),
+      gord |-> GhostOrd(pre, e, C2)]
 
 Prop(c) == SubSeq(c, 1, 3)
 
